@@ -191,9 +191,22 @@ Proof.
 Qed.
 
 (* ------------------------------------------------------------------ the re-read loop *)
+(* the batch-discard test and the per-record filter agree on every name: this is what C16_full rests on *)
+Lemma dot_batch_agrees e : is_dot_batch e = is_dot e.
+Proof.
+  unfold is_dot_batch, is_dot. destruct (h_name e) as [|a [|b [|c t]]]; cbn [list_eqb].
+  - reflexivity.
+  - rewrite andb_true_r, andb_false_r, orb_false_r. reflexivity.
+  - rewrite andb_false_r, andb_true_r. reflexivity.
+  - rewrite !andb_false_r. reflexivity.
+Qed.
+
+Lemma forallb_dot_agrees l : forallb is_dot_batch l = forallb is_dot l.
+Proof. induction l as [|x l IH]; [reflexivity|]. cbn [forallb]. rewrite dot_batch_agrees, IH. reflexivity. Qed.
+
 Lemma only_dots_visible b : only_dots b = true -> filter (fun e => negb (is_dot e)) b = [].
 Proof.
-  unfold only_dots. destruct b as [|x b]; [discriminate|]. intros Hf.
+  unfold only_dots. destruct b as [|x b]; [discriminate|]. rewrite forallb_dot_agrees. intros Hf.
   induction (x :: b) as [|y l IH]; [reflexivity|]. cbn [forallb] in Hf. apply andb_true_iff in Hf.
   destruct Hf as [Hy Hl]. cbn [filter]. rewrite Hy. cbn [negb]. apply IH. exact Hl.
 Qed.
